@@ -154,6 +154,7 @@ def run(ctx):
     nil_items(ctx)
     simple_content(ctx)
     same_name_contexts(ctx)
+    nil_with_attributes(ctx)
     if metas:
         ctx.sample({"input": metas[0][0], "decoded": metas[0][1]})
 
@@ -194,6 +195,35 @@ def nil_items(ctx):
             if k == "a":
                 model = [None if x is None else int(x["text"]) for x in v["list"]]
         ctx.compare("accumulate-model-vs-suds", meta, got, model)
+
+
+def nil_with_attributes(ctx):
+    """A nilled element may still carry attributes (XSD allows it): they come back under underscore names, as they
+    do for an element that is not nil."""
+    schema = ('<xsd:element name="f"><xsd:complexType><xsd:sequence/></xsd:complexType></xsd:element>'
+              '<xsd:complexType name="H"><xsd:sequence><xsd:element name="v" type="xsd:string" minOccurs="0"/>'
+              '</xsd:sequence><xsd:attribute name="id" type="xsd:int"/><xsd:attribute name="reason" type="xsd:string"/>'
+              '</xsd:complexType><xsd:element name="fResponse"><xsd:complexType><xsd:sequence>'
+              '<xsd:element name="head" type="x:H" nillable="true"/><xsd:element name="tail" type="x:H" nillable="true"/>'
+              '<xsd:element name="n" type="xsd:int" nillable="true"/></xsd:sequence></xsd:complexType></xsd:element>')
+    client = wsdlkit.client(wsdlkit.wsdl_doc(schema, "f", "fResponse"))
+    for xp in ("xsi", "i", "q1"):
+        data = ('<e:Envelope xmlns:e="%s" xmlns:%s="%s"><e:Body><fResponse xmlns="%s"><head %s:nil="true" id="5" '
+                'reason="withheld"/><tail %s:nil="true"/><n %s:nil="1"/></fResponse></e:Body></e:Envelope>'
+                % (xmlread.ENV11, xp, xmlread.XSI, wsdlkit.TNS, xp, xp, xp)).encode()
+        meta = {"stream": "nil-with-attributes", "xsi_prefix": xp, "reply": data.decode()}
+        ctx.case(common.canon(meta), True)
+        try:
+            r = client.service.f(__inject={"reply": data})
+            got = {"head": K.normal(getattr(r, "head", "absent")), "tail": K.normal(getattr(r, "tail", "absent")),
+                   "n": K.normal(getattr(r, "n", "absent"))}
+        except Exception as e:
+            ctx.fail("decoding a schema-valid reply raised", meta, "%s: %s" % (type(e).__name__, e), "a value")
+            continue
+        exp = {"head": {"__class__": "H", "_id": 5, "_reason": "withheld"}, "tail": None, "n": None}
+        if not K.same_value(got, exp):
+            ctx.fail("a nilled element is not decoded to None / its attributes are not kept under underscore names "
+                     "(whatever prefix the schema-instance namespace has)", meta, repr(got), repr(exp))
 
 
 CTX_TYPES = ["int", "string", "boolean", "decimal", "long"]
